@@ -152,6 +152,7 @@ Truth(e, env) ==
   CASE e.k = "or" -> Truth(e.l, env) \/ Truth(e.r, env)
     [] e.k = "and" -> Truth(e.l, env) /\ Truth(e.r, env)
     [] e.k = "not" -> ~Truth(e.e, env)
+    [] e.k = "paren" -> Truth(e.e, env)      \* explicit (redundant) parentheses
     [] e.k = "test" -> Len(EvalQuery(e.q, env)) > 0
     [] e.k = "ftest" -> Call(e.f, e.args, env).b
     [] e.k = "cmp" -> Compare(e.op, Operand(e.l, env), Operand(e.r, env))
